@@ -9,6 +9,7 @@
 -/
 import Lungo.Proofs.NoPanic
 import Lungo.Model.Session
+import Lungo.Spec.IndexSpec
 namespace Lungo
 
 /-- the `$jsonSchema` evaluator parameter reports no panic (it is `schemaUnmodelled` in the driver). -/
@@ -1060,5 +1061,166 @@ theorem put_index_guard (xs : List V) (key : String) (rest : Path) (value : V) (
               omega
             · cases h
 
+
+/-! ### the sequential system and the session layer -/
+
+theorem Sys.step_np (sch : SchemaEval) (hs : SchNoPanic sch) (s : Sys) (c : Call) (oids : List V) :
+    NP (s.step sch c oids) := by
+  unfold Sys.step
+  np_auto [runCall_np sch hs _ _ _]
+
+theorem Sys.step_reply_np (sch : SchemaEval) (hs : SchNoPanic sch) (s s' : Sys) (c : Call) (oids : List V) (r : Reply)
+    (h : s.step sch c oids = .ok (s', r)) : r.NP := by
+  unfold Sys.step at h
+  split at h
+  · cases h
+  · rename_i heq; cases h
+    exact runCall_reply_np sch hs _ _ _ _ _ _ heq
+
+/-- what a caller of the session layer can observe carries no panic -/
+def SReply.NP : SReply → Prop
+  | .ok r => r.NP
+  | .failed e => ∀ site, e ≠ .panic site
+  | _ => True
+
+theorem SReply.NP_failed_err : (SReply.failed .err).NP := by intro s h; cases h
+
+theorem SSys.step_np (sch : SchemaEval) (hs : SchNoPanic sch) (s : SSys) (c : SCall) : (s.step sch c).2.NP := by
+  unfold SSys.step
+  cases c
+  case call sid c oids =>
+    simp only
+    split
+    · split
+      · exact SReply.NP_failed_err
+      · split
+        · rename_i e he
+          intro site hc
+          exact runCall_np sch hs _ _ _ site (by rw [he, hc])
+        · rename_i he
+          exact runCall_reply_np sch hs _ _ _ _ _ _ he
+    · split
+      · exact SReply.NP_failed_err
+      · split
+        · trivial
+        · split
+          · rename_i e he
+            intro site hc
+            exact Sys.step_np sch hs _ _ _ site (by rw [he, hc])
+          · rename_i he
+            exact Sys.step_reply_np sch hs _ _ _ _ _ he
+  all_goals
+    simp only
+    repeat' split
+    all_goals first | exact SReply.NP_failed_err | trivial
+
+/-- a call that fails (or blocks) hands back the very state it was given -/
+theorem SSys.step_failed_unchanged (sch : SchemaEval) (s : SSys) (c : SCall) (e : Err)
+    (h : (s.step sch c).2 = .failed e) : (s.step sch c).1 = s := by
+  generalize hr : s.step sch c = r at h ⊢
+  unfold SSys.step at hr
+  cases c
+  all_goals
+    simp only at hr
+    repeat' split at hr
+    all_goals (subst hr; first | rfl | (cases h))
+
+/-- the same for a call that blocks on the writer slot -/
+theorem SSys.step_blocked_unchanged (sch : SchemaEval) (s : SSys) (c : SCall)
+    (h : (s.step sch c).2 = .blocked) : (s.step sch c).1 = s := by
+  generalize hr : s.step sch c = r at h ⊢
+  unfold SSys.step at hr
+  cases c
+  all_goals
+    simp only at hr
+    repeat' split at hr
+    all_goals (subst hr; first | rfl | (cases h))
+
+/-! #### sequences of calls -/
+
+/-- the observation of one call: its reply or its error -/
+def Sys.trace (sch : SchemaEval) (s : Sys) : List (Call × List V) → List (Res Reply)
+  | [] => []
+  | (c, oids) :: rest =>
+    match s.step sch c oids with
+    | .ok (s', r) => .ok r :: Sys.trace sch s' rest
+    | .error e => .error e :: Sys.trace sch s rest      -- the harness carries on with the same system
+
+/-- the system after a sequence of calls (failed calls are skipped), as `Sys.run` of Spec/IndexSpec -/
+def Sys.after (sch : SchemaEval) (s : Sys) : List (Call × List V) → Sys
+  | [] => s
+  | (c, oids) :: rest =>
+    match s.step sch c oids with
+    | .ok (s', _) => Sys.after sch s' rest
+    | .error _ => Sys.after sch s rest
+
+/-- a failed call is a no-op: what every later call observes, and the final state, are exactly as
+    if the failed call had not been made. -/
+theorem Sys.failed_call_is_noop (sch : SchemaEval) (s : Sys) (c : Call) (oids : List V) (e : Err)
+    (rest : List (Call × List V)) (h : s.step sch c oids = .error e) :
+    Sys.trace sch s ((c, oids) :: rest) = .error e :: Sys.trace sch s rest ∧
+    Sys.after sch s ((c, oids) :: rest) = Sys.after sch s rest := by
+  constructor
+  · rw [Sys.trace]; simp only [h]
+  · rw [Sys.after]; simp only [h]
+
+/-- every call of every sequence is served: one observation per call, none of them a panic -/
+theorem Sys.trace_served (sch : SchemaEval) (hs : SchNoPanic sch) (s : Sys) (calls : List (Call × List V)) :
+    (Sys.trace sch s calls).length = calls.length ∧
+    ∀ o ∈ Sys.trace sch s calls, NP o ∧ ∀ r, o = .ok r → r.NP := by
+  induction calls generalizing s with
+  | nil => exact ⟨rfl, fun o ho => by cases ho⟩
+  | cons co rest ih =>
+    obtain ⟨c, oids⟩ := co
+    rw [Sys.trace]
+    split
+    · rename_i s' r he
+      obtain ⟨h1, h2⟩ := ih s'
+      refine ⟨by simp [h1], ?_⟩
+      intro o ho
+      rcases List.mem_cons.mp ho with h | h
+      · subst h
+        exact ⟨NP_ok _, fun r' hr => by cases hr; exact Sys.step_reply_np sch hs _ _ _ _ _ he⟩
+      · exact h2 o h
+    · rename_i e he
+      obtain ⟨h1, h2⟩ := ih s
+      refine ⟨by simp [h1], ?_⟩
+      intro o ho
+      rcases List.mem_cons.mp ho with h | h
+      · subst h
+        exact ⟨NP_of_error (Sys.step_np sch hs _ _ _) he, fun r' hr => by cases hr⟩
+      · exact h2 o h
+
+/-- the replies of a sequence of session-level calls -/
+def SSys.trace (sch : SchemaEval) (s : SSys) : List SCall → List SReply
+  | [] => []
+  | c :: rest => (s.step sch c).2 :: SSys.trace sch (s.step sch c).1 rest
+
+/-- every session-level call of every sequence is answered, never with a panic -/
+theorem SSys.trace_served (sch : SchemaEval) (hs : SchNoPanic sch) (s : SSys) (calls : List SCall) :
+    (SSys.trace sch s calls).length = calls.length ∧ ∀ o ∈ SSys.trace sch s calls, o.NP := by
+  induction calls generalizing s with
+  | nil => exact ⟨rfl, fun o ho => by cases ho⟩
+  | cons c rest ih =>
+    rw [SSys.trace]
+    obtain ⟨h1, h2⟩ := ih (s.step sch c).1
+    refine ⟨by simp [h1], ?_⟩
+    intro o ho
+    rcases List.mem_cons.mp ho with h | h
+    · subst h; exact SSys.step_np sch hs s c
+    · exact h2 o h
+
+
+/-- `Sys.after` is the `Sys.run` used by the index properties (C07/C15) -/
+theorem Sys.after_eq_run (sch : SchemaEval) (s : Sys) (calls : List (Call × List V)) :
+    Sys.after sch s calls = Sys.run sch s calls := by
+  induction calls generalizing s with
+  | nil => rfl
+  | cons co rest ih =>
+    obtain ⟨c, oids⟩ := co
+    rw [Sys.after, Sys.run, List.foldl_cons]
+    split
+    · rename_i s' r he; simp only [he]; exact ih s'
+    · rename_i e he; simp only [he]; exact ih s
 
 end Lungo
